@@ -313,6 +313,64 @@ def check_node(g, s, history, weighted, unit, select=True):
     return problems, cnt
 
 
+# ----------------------------------------------------------------------------
+# process pool with a cooperative early stop
+# ----------------------------------------------------------------------------
+# harness.common.pool_run stops early with Pool.terminate(); a worker killed while it
+# holds the result-queue lock leaves terminate() deadlocked (seen with a mutant that
+# makes every task fail fast).  Here the stop is cooperative: a shared flag turns the
+# remaining tasks into no-ops, the iterator is drained and the pool is closed normally.
+_POOL_FN = None
+_POOL_STOP = None
+
+
+def _pool_guarded(pair):
+    i, item = pair
+    if _POOL_STOP.is_set():
+        return i, None
+    return i, _POOL_FN(item)
+
+
+def pool_run(fn, items, is_bad, stop_after=10, procs=None):
+    """Unordered fork-based parallel map; after `stop_after` bad results the remaining
+    items are skipped.  Returns [(item, result)] of the items actually evaluated."""
+    import multiprocessing as mp
+    import os
+    global _POOL_FN, _POOL_STOP
+    items = list(items)
+    procs = procs or min(16, os.cpu_count() or 1)
+    out = []
+    bad = 0
+    if procs <= 1 or len(items) < 4:
+        for it in items:
+            r = fn(it)
+            out.append((it, r))
+            bad += 1 if is_bad(r) else 0
+            if bad >= stop_after:
+                break
+        return out
+    ctx = mp.get_context("fork")
+    _POOL_FN = fn
+    _POOL_STOP = ctx.Event()
+    chunksize = max(1, min(64, len(items) // (procs * 16)))
+    pool = ctx.Pool(procs)
+    try:
+        for i, r in pool.imap_unordered(_pool_guarded, list(enumerate(items)), chunksize=chunksize):
+            if r is None:
+                continue
+            out.append((items[i], r))
+            if is_bad(r):
+                bad += 1
+                if bad >= stop_after:
+                    _POOL_STOP.set()
+        pool.close()
+        pool.join()
+    except BaseException:
+        pool.terminate()
+        raise
+    return out
+
+
 def shrink(g, prob):
     """Greedy minimisation of a failing history: drop calls while the history stays a
     path of the emitted graph and the same failure class is observed at its end."""
@@ -408,7 +466,7 @@ def hist_task(task):
     g = G[task["mode"]]
     weighted, unit = task["weighted"], task["unit"]
     out = {"nodes": 0, "leaves": 0, "selections": 0, "nontrivial": 0, "problems": [], "private_diff": [],
-           "private_same": 0, "sample": None}
+           "private_same": 0, "private_ndiff": 0, "sample": None}
     s0 = tuple([-1] * g.n)
     for hist, impl in task["histories"]:
         s = s0
@@ -416,30 +474,33 @@ def hist_task(task):
         for c in hist:
             s = g.succ(s, ref_op(c, weighted))
             states.append(s)
-        probs = []
-        # intermediate prefixes are emitted histories of their own (BFS parents);
-        # only the cheap observables are re-checked along the way
-        for i in range(len(hist)):
-            p, _ = check_node(g, states[i], list(hist[:i]), weighted, unit, select=False)
-            probs.extend(p)
-            if p:
-                break
-        if not probs:
-            p, cnt = check_node(g, s, list(hist), weighted, unit)
-            probs.extend(p)
-            out["leaves"] += cnt["leaves"]
-            out["selections"] += cnt["selections"]
-            if cnt["selections"] and hist:
-                out["nontrivial"] += 1
-        out["nodes"] += 1
-        if probs:
-            out["problems"].extend(probs)
-            if len(out["problems"]) >= task.get("max_problems", 5):
-                break
-            continue
-        if out["sample"] is None and len(hist) >= 4 and g.obs[s][1] > 0:
-            out["sample"] = {"history": pyhist(hist, unit), "reference_state": list(s), "SelNum": list(g.obs[s][2]),
-                             "ListDictImpl": impl}
+        # histories no longer than the walk depth were already examined by the walk:
+        # for them only the private-state comparison below is made
+        if len(hist) > task.get("walk_depth", -1):
+            probs = []
+            # intermediate prefixes are emitted histories of their own (BFS parents);
+            # only the cheap observables are re-checked along the way
+            for i in range(len(hist)):
+                p, _ = check_node(g, states[i], list(hist[:i]), weighted, unit, select=False)
+                probs.extend(p)
+                if p:
+                    break
+            if not probs:
+                p, cnt = check_node(g, s, list(hist), weighted, unit)
+                probs.extend(p)
+                out["leaves"] += cnt["leaves"]
+                out["selections"] += cnt["selections"]
+                if cnt["selections"] and hist:
+                    out["nontrivial"] += 1
+            out["nodes"] += 1
+            if probs:
+                out["problems"].extend(probs)
+                if len(out["problems"]) >= task.get("max_problems", 5):
+                    break
+                continue
+            if out["sample"] is None and len(hist) >= 4 and g.obs[s][1] > 0:
+                out["sample"] = {"history": pyhist(hist, unit), "reference_state": list(s), "SelNum": list(g.obs[s][2]),
+                                 "ListDictImpl": impl}
         # private state vs the transcription (never a verdict)
         try:
             L = build(hist, weighted, unit)
@@ -453,9 +514,12 @@ def hist_task(task):
                 same = priv["items"] == impl["items"]
             if same:
                 out["private_same"] += 1
-            elif len(out["private_diff"]) < 3:
-                out["private_diff"].append({"history": pyhist(hist, unit), "code": priv, "ListDictImpl": impl})
+            else:
+                out["private_ndiff"] += 1
+                if len(out["private_diff"]) < 2:
+                    out["private_diff"].append({"history": pyhist(hist, unit), "code": priv, "ListDictImpl": impl})
         except Exception as ex:   # attribute renamed / refactored: not a verdict
-            if len(out["private_diff"]) < 3:
+            out["private_ndiff"] += 1
+            if len(out["private_diff"]) < 2:
                 out["private_diff"].append({"history": pyhist(hist, unit), "code": repr(ex), "ListDictImpl": impl})
     return out
